@@ -20,7 +20,8 @@ RULE = ("Hypothesis draws backend (memory/PathIO/AsyncPathIO), server block size
         "content read directly, stat size and MLSD size seen by a second session, and a whole download by that second "
         "session must equal the model. Non-trivial = length > block size with len % block != 0, or offset > 0, or a "
         "payload with special bytes; distinct by hash of the whole case. "
-        "readers: 2-4 sessions download / stat / list one stored file at the same time (workers paced by a per-connection limit); each download must be exact; non-trivial = two transfer workers were inside the file together.")
+        "readers: 2-4 sessions download / stat / list one stored file at the same time (workers paced by a per-connection limit); each download must be exact; non-trivial = two transfer workers were inside the file together. "
+        "late: (backend, EPSV/PASV, extra one-way delay of data connections 0-1.5 s, an earlier operation that is refused / times out / completes, then STOR / APPE / RETR / upload()): an operation that returns normally has exact bytes; non-trivial = delay > 0 and an earlier operation.")
 ASSUMPTIONS = [
     "restart writes to a missing file are outside this property (answered 451 on every backend; C18)",
     "a restart offset beyond the end zero-fills only if at least one byte is then written (POSIX and BytesIO agree)",
